@@ -20,6 +20,20 @@ import sys
 from . import tree
 
 
+class Capture(io.TextIOWrapper):
+    """Stand-in for the process's standard output / error: a real text stream over a byte buffer, so that everything a program may do with
+    sys.stdout (reconfigure(), .buffer, .encoding, errors) is there.  UTF-8 with strict errors, newline untranslated, like a pipe under a UTF-8 locale."""
+
+    def __init__(self):
+        super().__init__(io.BytesIO(), encoding='utf-8', errors='strict', newline='', write_through=True)
+
+    def getvalue(self):
+        self.flush()
+        data = self.buffer.getvalue()
+        # whatever encoding the program switched the stream to: the bytes are read back the way a consumer of the pipe would read them, as UTF-8
+        return data.decode('utf-8', errors='surrogateescape')
+
+
 class Run:
     def __init__(self):
         self.stdout = []
@@ -250,7 +264,7 @@ def run_guesser(tdir, argv, quit_after=None, session='default_run', keep_modules
         if fn.startswith(lib_prefix) or os.path.realpath(fn).startswith(lib_prefix):
             return local_trace
         return None
-    out, err = io.StringIO(), io.StringIO()
+    out, err = Capture(), Capture()
     old_argv = sys.argv
     saved_random = {}
     sys.argv = [os.path.join(tdir, 'pcfg_guesser.py')] + list(argv)
@@ -393,7 +407,7 @@ def run_cli(tdir, module, argv):
     """Run <module>.main() of the scratch tree as a fresh process; returns Run (stdout lines, stderr, pt events)."""
     tree.use(tdir)
     run = Run()
-    out, err = io.StringIO(), io.StringIO()
+    out, err = Capture(), Capture()
     old_argv = sys.argv
     sys.argv = [os.path.join(tdir, module + '.py')] + list(argv)
     try:
